@@ -1,7 +1,7 @@
 (* C14 - Reconnect delays follow the retry strategy: doubling, capped, reset on success.
    Only statements, closed by `exact`, each followed by Print Assumptions. *)
 From Coq Require Import NArith List.
-From Rodbus Require Import Model.Retry Spec.RetrySpec Proofs.RetryProofs Gen.Defaults Model.RetryTask Proofs.RetryTaskProofs.
+From Rodbus Require Import Model.Retry Spec.RetrySpec Proofs.RetryProofs Gen.Defaults Gen.RetryArms Model.RetryTask Proofs.RetryTaskProofs.
 Import ListNotations.
 Local Open Scope N_scope.
 
@@ -89,8 +89,33 @@ Theorem C14_task : forall v mn mx, mn <= mx -> 2 * mx <= dur_max -> forall evs,
 Proof. exact task_delays_from_init. Qed.
 Print Assumptions C14_task.
 
+(* the model's step function is defined from the generated table of the arms of the `match` on the session result in
+   tcp/client.rs run_connection, serial/client.rs try_open_and_run and serial/server.rs run (Gen/RetryArms.v). In every
+   task: every way a live session is lost (I/O error, bad frame, too many response timeouts) takes its delay from
+   after_disconnect(), a failed attempt from after_failed_connect(), a disabled channel calls neither and does not wait,
+   a closed channel ends the task, and a success resets. C14_task above is proved from these rows: a source in which one
+   arm calls the other method regenerates the table and the proof stops compiling. *)
+Theorem C14_task_arms : forall v,
+  (forall k, session_arm v (end_of k) = ArmWait CallAfterDisconnect) /\
+  session_arm v EndDisabled = ArmNoWait /\
+  session_arm v EndShutdown = ArmShutdown /\
+  failed_call v = CallAfterFailedConnect /\
+  resets_on_success v = true.
+Proof. exact (fun v => conj (lost_arm_is_after_disconnect v) (conj (disabled_arm_does_not_wait v) (conj (shutdown_arm_ends_the_task v)
+              (conj (failed_attempt_is_after_failed_connect v) (success_resets v))))). Qed.
+Print Assumptions C14_task_arms.
+
+(* after a connection that ended in ANY of the three ways the next waits are min (after the disconnect), then
+   min, 2 min, 4 min .. for the failed connects that follow: the success reset the back-off and the disconnect
+   does not advance it *)
+Theorem C14_task_after_any_loss : forall v mn mx k, mn <= mx -> 2 * mx <= dur_max ->
+  exists t' o, trun v (tinit mn mx) [AttemptFails; Elapsed; AttemptFails; Elapsed; AttemptOk; Lost k; Elapsed; AttemptFails; Elapsed; AttemptFails; Elapsed; AttemptFails] = Some (t', o) /\
+    armed o = [mn; N.min (2 * mn) mx; mn; mn; N.min (2 * mn) mx; N.min (4 * mn) mx].
+Proof. exact after_any_loss. Qed.
+Print Assumptions C14_task_after_any_loss.
+
 Example C14_task_nonvacuous :
-  option_map snd (trun TcpClient (tinit 20 70) [AttemptFails; Elapsed; AttemptFails; Elapsed; AttemptOk; Lost; Elapsed; AttemptFails])
+  option_map snd (trun TcpClient (tinit 20 70) [AttemptFails; Elapsed; AttemptFails; Elapsed; AttemptOk; Lost LMaxTimeouts; Elapsed; AttemptFails])
   = Some [OAttempt; OAnnounce AfterFailedConnect 20; OArm 20; OElapsed 20;
           OAttempt; OAnnounce AfterFailedConnect 40; OArm 40; OElapsed 40;
           OAttempt; OUp; OReset; OAnnounce AfterDisconnect 20; OArm 20; OElapsed 20;
